@@ -267,7 +267,30 @@ func (a *Anchors) detectRenames(verifDir string) {
 	sort.Strings(gone)
 	taken := map[string]bool{}
 	renamed := map[string]string{}
+	// first: a function that became a method (or the reverse) under the same base
+	// name and the same receiver-inclusive signature
+	baseName := func(q string) string {
+		if i := strings.LastIndex(q, "."); i >= 0 {
+			return q[i+1:]
+		}
+		return q
+	}
 	for _, name := range gone {
+		var same []string
+		for n, f := range cur.Funcs {
+			if _, old := base.Funcs[n]; !old && !taken[n] && baseName(n) == baseName(name) && f.Sig == mapType(base.Funcs[name].Sig) {
+				same = append(same, n)
+			}
+		}
+		if len(same) == 1 {
+			renamed[name] = same[0]
+			taken[same[0]] = true
+		}
+	}
+	for _, name := range gone {
+		if _, done := renamed[name]; done {
+			continue
+		}
 		role := "(function " + name + ")"
 		for r, n := range a.Funcs {
 			if n == name {
